@@ -35,11 +35,20 @@ class _Stdin:
         return False
 
 
-def run_main(args, stdin=None):
+def run_main(args, stdin=None, real_streams=False):
     """Runs main(['graphtage', *args]) with in-memory stdout/stderr (and standard input, if bytes are given). Never raises
-    for exceptions escaping main()."""
-    out, err = common.Cap(), common.Cap()
+    for exceptions escaping main(). With real_streams the two output streams are real files with file descriptors, which
+    is what selects the Printer's line-buffered tqdm.write path that a terminal or a pipe gets (an in-memory stream takes
+    the raw path)."""
     so, se, si = sys.stdout, sys.stderr, sys.stdin
+    paths = None
+    if real_streams:
+        _counter[0] += 1
+        paths = [os.path.join(scratch_dir(), f"std{k}{_counter[0]}.txt") for k in ('out', 'err')]
+        out = open(paths[0], 'w', encoding='utf-8', newline='')
+        err = open(paths[1], 'w', encoding='utf-8', newline='')
+    else:
+        out, err = common.Cap(), common.Cap()
     sys.stdout, sys.stderr = out, err
     if stdin is not None:
         sys.stdin = _Stdin(stdin)
@@ -68,6 +77,19 @@ def run_main(args, stdin=None):
         for h in list(logging.root.handlers):
             logging.root.removeHandler(h)
         logging.root.setLevel(logging.WARNING)
+        if real_streams:
+            texts = []
+            for f, pth in zip((out, err), paths):
+                try:
+                    if not f.closed:
+                        f.close()
+                except Exception:
+                    pass
+                with open(pth, encoding='utf-8', newline='', errors='replace') as g:
+                    texts.append(g.read())
+                cleanup_files(pth)
+    if real_streams:
+        return Result(rc, texts[0], texts[1], exc, key)
     return Result(rc, out.getvalue(), err.getvalue(), exc, key)
 
 
